@@ -490,3 +490,27 @@ Theorem max_cost_read_per_add est oracle s mc k cost :
   pol_add est oracle (sl_set_max s mc) k cost =
   pol_add est oracle {| sl_max := mc; sl_used := sl_used s; sl_kc := sl_kc s |} k cost.
 Proof. reflexivity. Qed.
+
+(* C20: the eviction loop never indexes an empty sample: on an empty sample the minimum is
+   i64::MAX, every estimate is below it, so the newcomer is rejected first *)
+Lemma evict_loop_no_panic est ih k cost oracle :
+  ih < I64MAX ->
+  forall s sample victims log mets, evict_loop est ih k cost oracle s sample victims log mets <> AddPanic.
+Proof.
+  intros Hih. induction oracle as [|smp oracle IH]; intros s sample victims log mets; cbn [evict_loop].
+  - destruct (0 <=? sl_room_left s cost); discriminate.
+  - destruct (0 <=? sl_room_left s cost); [discriminate|].
+    destruct (negb (legal_fill (sl_kc s) sample smp)); [discriminate|].
+    destruct (find_min0 est smp) as [[[mk mh] mi] mc] eqn:FM.
+    destruct (ih <? mh) eqn:E; [discriminate|].
+    destruct smp as [|p0 smp'].
+    + exfalso. rewrite find_min0_nil in FM. inversion FM; subst. apply Z.ltb_ge in E. lia.
+    + destruct (pol_remove s mk). apply IH.
+Qed.
+
+Lemma pol_add_no_panic est oracle s k cost : est k < I64MAX -> pol_add est oracle s k cost <> AddPanic.
+Proof.
+  intros H. unfold pol_add. destruct (sl_max s <? cost); [discriminate|].
+  destruct (sl_update s k cost) as [[s' b] ev]. destruct b; [discriminate|].
+  destruct (0 <=? sl_room_left s cost); [discriminate|]. apply evict_loop_no_panic. assumption.
+Qed.
